@@ -8,6 +8,8 @@ HOOKS = {
     "add_only": True,
 }
 ENGINES = [
+    {"name": "kani", "path": "bin/check", "serves_properties": ["C10"],
+     "kind_free_text": "Kani 0.68 / CBMC 6.11 harness crate (kani/src) built against /repo's crates on every run; bounded stand-in and counterexample generator; replay binary kh-replay re-runs a counterexample on the stable toolchain"},
     {"name": "verus", "path": "bin/check", "serves_properties": ["C01", "C02", "C03", "C04", "C05"],
      "kind_free_text": "contract templates (specs/*.vrs) whose holes are filled with the real items/function bodies of /repo by the vx extractor on every run; Verus 0.2026.09.13 (Z3) discharges every obligation"},
 ]
@@ -63,6 +65,19 @@ CLAIMS["C05"] = {
     "note": "Trusted: vstd's model of vec::IntoIter plus one axiom (exhausted iterator has measure 0) used only for the decreases argument. The generic "
             "`impl Iterator<Item = PushGene>` parameter is instantiated at std::vec::IntoIter<PushGene> (what From<Plushy> passes).",
     "design_ref": "DESIGN.md §4 parser, §6 C05",
+}
+KANI_NOTE = ("Bounded: CBMC explores every execution of the real compiled crates (including rand 0.9) within the stated collection-size bound, for all "
+             "element values and all random streams (each word handed to rand is an unconstrained symbolic value; after the stated number of symbolic "
+             "words the stream continues with all-ones). Not a proof for larger sizes. Uniformity of rand's words / its sampling algorithms is assumed.")
+CLAIMS["C10"] = {
+    "category": "model_checking", "engine": "kani",
+    "technique": "bounded stand-in: Kani/CBMC harnesses on the real compiled crates with a symbolic random stream, cover! witnesses for every 'can occur' clause, counterexamples replayed on the stable toolchain",
+    "text": "For genomes up to length 3 (quick) / 5 (thorough), for all gene values and all random streams: TwoPointXo and UniformXo on Vec<T> (array and tuple forms) and on "
+            "Bitstring give a child of the parents' length whose gene at each position comes from one parent at that position; two-point takes one contiguous segment from the "
+            "second parent and every segment [i,j) (including both ends, the whole genome and the empty one) is reachable; uniform decides every position with its own random word "
+            "and every origin pattern is reachable; different lengths give DifferentGenomeLength(a,b); Bitstring::crossover_gene/segment return Err (no panic) exactly when the "
+            "index/range leaves either genome and otherwise swap exactly the addressed genes. No panic is reachable. Labelled bounded; not counted as proved.",
+    "note": KANI_NOTE, "design_ref": "DESIGN.md §5, §6 C10",
 }
 NOT_APPLICABLE = {
     "C09": "generation step: rayon worker threads and the thread-local OS-seeded rand::rng() inside par_next/serial_next are outside both installed verifiers (Kani: no threads/getrandom; Verus: no model); the remaining repository code is one collect::<Result<_,_>>() expression whose all-or-nothing behaviour is std's contract (DESIGN.md §7)",
